@@ -108,9 +108,9 @@ func UpdatePartialFromConfig(cfg *Config, updates map[string]any) (UpdateStatus,
 		return UpdateStatusFailed, nil
 	}
 
-	// The update is applied as a whole or not at all: values are staged, committed, verified and
-	// persisted first, and only then are the components that follow them notified. If any step
-	// fails, everything is put back as it was.
+	// The update is applied as a whole or not at all: values are staged, verified and persisted
+	// first; only then are they committed and the components that follow them notified. If any
+	// step fails, what was staged is dropped and nothing has changed anywhere.
 	slog.Debug("Setting properties from JSON map...", "updates", updates)
 	stagedProps, err := setPropsFromMapRecursive(reflect.ValueOf(cfg), updates)
 	if err != nil {
@@ -121,14 +121,34 @@ func UpdatePartialFromConfig(cfg *Config, updates map[string]any) (UpdateStatus,
 		return UpdateStatusFailed, fmt.Errorf("%w: %v", ErrUpdateFailed, err)
 	}
 
-	// Verified before anything is committed: a value the proxy cannot run under must never be in
-	// force, not even for the moment between a commit and its rollback (a component woken up by
-	// the notification of an earlier update reads whatever is committed at that moment).
-	if err := cfg.verify(); err != nil {
-		slog.Error("Updated config failed verification", "error", err)
+	discard := func() {
 		for _, prop := range stagedProps {
 			prop.DiscardStaged()
 		}
+	}
+
+	// Everything that can refuse the update happens before anything is committed: a value that is
+	// going to be refused must never be in force, not even for the moment between a commit and its
+	// rollback (a component woken up by the notification of an earlier update reads whatever is
+	// committed at that moment, a cleanup cycle evicts down to whatever limit it finds).
+	if err := cfg.verify(); err != nil {
+		slog.Error("Updated config failed verification", "error", err)
+		discard()
+		return UpdateStatusFailed, fmt.Errorf("%w: %v", ErrUpdateFailed, err)
+	}
+
+	// What the config file will hold: the stored values (no command-line overwrites) with the same
+	// update applied. It is verified too (a stored value masked by an overwrite would otherwise go
+	// unchecked until the next start without the flag) and written out.
+	candidate, err := cfg.storedCopyWith(updates)
+	if err != nil {
+		slog.Error("Updated config would not be loadable from the config file", "error", err)
+		discard()
+		return UpdateStatusFailed, fmt.Errorf("%w: %v", ErrUpdateFailed, err)
+	}
+	if err := candidate.persist(); err != nil {
+		slog.Error("Failed to persist updated config", "error", err)
+		discard()
 		return UpdateStatusFailed, fmt.Errorf("%w: %v", ErrUpdateFailed, err)
 	}
 
@@ -136,27 +156,6 @@ func UpdatePartialFromConfig(cfg *Config, updates map[string]any) (UpdateStatus,
 	for _, prop := range stagedProps {
 		slog.Debug("Committing property...", "prop", prop)
 		prop.CommitStaged()
-	}
-	rollback := func() {
-		// In reverse order, so that a property named twice ends up with its original value.
-		for i := len(stagedProps) - 1; i >= 0; i-- {
-			stagedProps[i].RollbackCommit()
-		}
-		for _, prop := range stagedProps {
-			prop.NotifyRolledBack()
-		}
-	}
-
-	if err := cfg.verifyStored(); err != nil {
-		slog.Error("Updated config would not be loadable from the config file", "error", err)
-		rollback()
-		return UpdateStatusFailed, fmt.Errorf("%w: %v", ErrUpdateFailed, err)
-	}
-
-	if err := cfg.persist(); err != nil {
-		slog.Error("Failed to persist updated config", "error", err)
-		rollback()
-		return UpdateStatusFailed, fmt.Errorf("%w: %v", ErrUpdateFailed, err)
 	}
 
 	for _, prop := range stagedProps {
